@@ -20,13 +20,15 @@ Proof. exact shapley_bf_marginal. Qed.
 (* the whole kernel (scatter into out[], all validation points, division by n_test): unit by unit the Shapley
    value of the mean-over-validation-points game *)
 Theorem C01_kernel_full : forall n us nulls orders p,
-  (p < n)%nat -> orders <> [] -> (forall l, In l orders -> Permutation l (seq 0 n)) ->
+  (p < n)%nat -> points us nulls orders <> [] -> (forall l, In l orders -> Permutation l (seq 0 n)) ->
   nth p (kernel n us nulls orders) 0 == shapley n (vnn_mean us nulls orders) p.
 Proof. exact kernel_is_shapley_mean. Qed.
 
 (* the neighbor pipeline (label encoding, per-unit argmin reduction, utility table lookup, kernel) *)
 Theorem C01_neighbor_is_shapley : forall n labels owner dist ucols nulls orders p,
-  (p < n)%nat -> orders <> [] -> (forall l, In l orders -> Permutation l (seq 0 n)) ->
+  (p < n)%nat ->
+  points (map (fun t => unit_utility labels owner (fst t) (snd t)) (combine dist ucols)) nulls orders <> [] ->
+  (forall l, In l orders -> Permutation l (seq 0 n)) ->
   nth p (neighbor1 n labels owner dist ucols nulls orders) 0
   == shapley n (vnn_mean (map (fun t => unit_utility labels owner (fst t) (snd t)) (combine dist ucols)) nulls orders) p.
 Proof. intros n labels owner dist ucols nulls orders. exact (kernel_is_shapley_mean n _ nulls orders). Qed.
